@@ -19,6 +19,8 @@ with open(os.path.join(os.path.dirname(os.path.dirname(os.path.abspath(__file__)
     PATHSLOTS = json.load(_f)
 
 QUOTED = re.compile(r'"([^"]*)"')
+VN = 0x6162636465666768   # vnode ids with no zero byte: a text slice that starts one byte early would show it
+NPAT = 5
 
 
 def text(L, pattern):
@@ -28,9 +30,13 @@ def text(L, pattern):
     elif pattern == 1:   # 2-byte characters starting at odd offsets (straddle every even boundary)
         n = (L - 1) // 2
         s = 'x' + 'é' * n + ('y' if (L - 1) % 2 else '')
-    else:                # 3-byte characters
+    elif pattern == 2:   # 3-byte characters
         r = L % 3
         s = 'z' * r + '€' * (L // 3)
+    elif pattern == 3:   # only separators: every chunk ends (and begins) with '/'
+        s = '/' * L
+    else:                # blanks and dots: every chunk ends with a character a careless strip() would eat
+        s = ''.join(' .'[i % 2] for i in range(L))
     assert len(s.encode()) == L, (L, pattern)
     return s
 
@@ -68,13 +74,13 @@ def judge_standalone(kind, L, pattern):
     txt = text(L, pattern)
     bad = []
     if kind == 'lookup':
-        evs = lookup_events(0x1234, txt)
+        evs = lookup_events(0x4142434445464748, txt)
         out, p = run(evs)
         lk = [t for t in out if type(t).__name__ == 'VfsLookup']
         if len(out) != 1 or len(lk) != 1:
             return [('continuation-record-produced-its-own-trace:lookup' if len(out) > 1 else 'lookup-trace-missing',
                      {'n_records': len(evs), 'traces': [str(t) for t in out][:4]})]
-        if lk[0].path != txt or lk[0].vnode_id != 0x1234:
+        if lk[0].path != txt or lk[0].vnode_id != 0x4142434445464748:
             bad.append(('lookup-text-or-vnode-wrong', {'got': lk[0].path, 'vnode': lk[0].vnode_id, 'len': L}))
         if len(lk[0].ktraces) != len(evs):
             bad.append(('lookup-window-incomplete', {'got': len(lk[0].ktraces), 'exp': len(evs)}))
@@ -128,7 +134,7 @@ def judge_enclosed(name, texts, gaps):
     for i, t in enumerate(texts):
         if i in gaps:
             evs.append(unrelated(gaps[i]))
-        evs += lookup_events(0x500 + i, t)
+        evs += lookup_events(VN + i, t)
     if len(texts) in gaps:
         evs.append(unrelated(gaps[len(texts)]))
     evs.append(E.ev(name, 2, e))
@@ -138,7 +144,7 @@ def judge_enclosed(name, texts, gaps):
     lks = [t for t in out if type(t).__name__ == 'VfsLookup']
     if len(mine) != 1:
         return [('enclosing-trace-count', {'n': len(mine)})]
-    if [t.path for t in lks] != list(texts) or [t.vnode_id for t in lks] != [0x500 + i for i in range(len(texts))]:
+    if [t.path for t in lks] != list(texts) or [t.vnode_id for t in lks] != [VN + i for i in range(len(texts))]:
         bad.append(('lookup-traces-differ-from-lookups', {'got': [t.path for t in lks][:4], 'exp_n': len(texts)}))
     got = QUOTED.findall(str(mine[0]))
     exp = expected_slots(name, list(texts))
@@ -150,8 +156,8 @@ def judge_enclosed(name, texts, gaps):
 class C08(Check):
     pid = 'C08'
     level = 'model_checking'
-    rule = ('texts of every byte length 0..184 x 3 content patterns (ASCII; 2-byte and 3-byte UTF-8 characters placed to '
-            'straddle record boundaries) chunked kernel-style: (a) stand-alone VFS_LOOKUP, TRACE_STRING_GLOBAL (lengths '
+    rule = ('texts of every byte length 0..184 x 5 content patterns (ASCII; 2-byte and 3-byte UTF-8 characters placed to '
+            'straddle record boundaries; all separators; blanks and dots) chunked kernel-style: (a) stand-alone VFS_LOOKUP, TRACE_STRING_GLOBAL (lengths '
             '0..184) and THREADNAME / THREADNAME_PREV (0..63) record sequences - exactly one trace with exactly the text (and '
             'vnode id / string id), tables hold exactly the announced text; (b) every path-taking BSD decoder (66 names, frozen '
             'slot table) x one lookup of every length x patterns; x k in {0,1,2,3,6} lookups of boundary lengths '
@@ -165,7 +171,7 @@ class C08(Check):
                    'slot table mc/pathslots.json frozen from the pinned commit (53 one-path, 10 two-path, 3 special)')
 
     def bounds(self):
-        return {'max_len': 184, 'patterns': 3, 'path_decoders': len(PATHSLOTS)}
+        return {'max_len': 184, 'patterns': NPAT, 'path_decoders': len(PATHSLOTS)}
 
     def shards(self):
         out = [('standalone', kind) for kind in ('lookup', 'gstring', 'threadname', 'threadname_prev')]
@@ -178,7 +184,7 @@ class C08(Check):
             kind = desc[1]
             maxl = 184 if kind in ('lookup', 'gstring') else 63
             for L in range(maxl + 1):
-                for pattern in range(3):
+                for pattern in range(NPAT):
                     try:
                         bad = judge_standalone(kind, L, pattern)
                     except Exception as ex:
@@ -193,7 +199,7 @@ class C08(Check):
         elif desc[0] == 'enc1':
             for name in desc[1]:
                 for L in range(185):
-                    for pattern in range(3):
+                    for pattern in range(NPAT):
                         self._enc(acc, name, [text(L, pattern)], {})
         else:
             LENS = [0, 1, 23, 24, 25, 55, 56, 57, 184]
@@ -201,7 +207,7 @@ class C08(Check):
                 ks = [0, 2, 3, 6] if self.tier == 'thorough' or PATHSLOTS[name] != 'one' else [0, 2, 6]
                 for k in ks:
                     for li, L in enumerate(LENS):
-                        texts = [text(LENS[(li + j) % len(LENS)] if j else L, j % 3) + (str(j) if LENS[(li + j) % len(LENS)] < 184 and j else '') for j in range(k)]
+                        texts = [text(LENS[(li + j) % len(LENS)] if j else L, (j + li) % NPAT) + (str(j) if LENS[(li + j) % len(LENS)] < 184 and j else '') for j in range(k)]
                         texts = [t.encode()[:184].decode(errors='ignore') for t in texts]
                         self._enc(acc, name, texts, {})
                         if li < 3:
